@@ -379,6 +379,62 @@ func checkC09(c *core.Ctx) {
 		}
 	})
 
+	// a long but ordinary piece on a machine with a modest amount of memory to give: 80,000 chords (about 450 KB of
+	// chord text) under a data segment limit of 1 GiB, thorough also 160,000 chords under 2 GiB. What is demanded
+	// is the form of the outcome - no runtime fatal error, and success since the piece is valid -, the limit is more
+	// than 2000 times the size of the input. (The repaired tree needs less than 650 MB / 1.3 GB for every command.)
+	memCmds := []struct {
+		name string
+		args []string
+		text bool
+	}{
+		{"text parse", []string{"text", "parse"}, true},
+		{"text conv syllable", []string{"text", "conv", "syllable"}, true},
+		{"write parse", []string{"write", "parse"}, false},
+		{"write conv", []string{"write", "conv", "-c", "cmt"}, false},
+		{"write", []string{"write"}, false},
+		{"write event", []string{"write", "event", "--track", "2"}, false},
+		{"gen attr", []string{"gen", "attr", "-d", "60000"}, false},
+	}
+	memSizes := []struct{ chords, dataKB int }{{80000, 1 << 20}}
+	if !c.Quick() {
+		memSizes = append(memSizes, struct{ chords, dataKB int }{160000, 2 << 20})
+	}
+	var memRSS int64
+	c.Stream("memory", len(memCmds)*len(memSizes), func(i int, r *rand.Rand) {
+		mc, sz := memCmds[i%len(memCmds)], memSizes[i/len(memCmds)]
+		// a four-chord unit chosen by the seed, repeated
+		roots := []string{"C", "D", "E", "F", "G", "A", "B"}
+		syms := []struct{ text, name string }{{"", ""}, {"m", "m"}, {"_7", "7"}, {"m7", "m7"}, {"M7", "M7"}, {"sus4", "sus4"}, {"dim", "dim"}}
+		var text, doc strings.Builder
+		for k := 0; k < 4; k++ {
+			ri, sy := r.Intn(len(roots)), syms[r.Intn(len(syms))]
+			fmt.Fprintf(&text, "%s%s[1] ", roots[ri], sy.text)
+			fmt.Fprintf(&doc, "- chord: {degree: \"%d\", name: %s}\n  values: [\"1\"]\n", ri+1, jq(sy.name))
+		}
+		unit, n := doc.String(), sz.chords/4
+		if mc.text {
+			unit = text.String() + "\n"
+		}
+		var in []byte
+		if mc.name != "gen attr" {
+			in = []byte(strings.Repeat(unit, n))
+		} else if i >= len(memCmds) {
+			mc.args = []string{"gen", "attr", "-d", "120000"}
+		}
+		res := c.Crd.Run(runner.Opt{Stdin: in, DataKB: sz.dataKB, CPUSec: 600}, mc.args...)
+		det := map[string]any{"unit": unit, "repeated": n, "input_len": len(in), "data_limit_kb": sz.dataKB, "argv": runner.ShellQuote(mc.args)}
+		if !judgeOutcome(c, "memory", i, mc.name+" (long piece, limited memory)", res, det) {
+			return
+		}
+		if !res.OK() {
+			c.Violate("memory", i, "memory:refused:"+mc.name, fmt.Sprintf("`crd %s` refuses a valid piece of %d chords under a data limit of %d KiB", mc.name, sz.chords, sz.dataKB), mergeMaps(det, map[string]any{"run": obs(res)}))
+			return
+		}
+		c.Nontrivial(fmt.Sprintf("memory|%s|%d|%s", mc.name, sz.chords, unit))
+		c.Extra("max_rss_kb_long_piece", maxInt64(&memRSS, res.MaxRSSKB))
+	})
+
 	// huge interval numbers through every channel: only the form of the outcome is judged
 	hugeNums := []string{"64", "1000", "1000000", "1000000000", "4294967296", "9223372036854775807", "18446744073709551615", "18446744073709551616"}
 	c.Stream("hugedegree", len(hugeNums)*6, func(i int, r *rand.Rand) {
@@ -795,7 +851,9 @@ func nonsenseCatalogue(c *core.Ctx) {
 			"- chord: {degree: \"1\", name: \"7\"}\n  values: [1]\n- chord: {degree: \"17\", name: \"\"}\n  values: [1]\n- chord: {degree: \"1\", name: \"77\"}\n  values: [1]\n- chord: {degree: \"17\", name: \"7x\"}\n  values: [1]\n", "- chord: {degree: \"1\", name: \"foo\"}\n  values: [\"1\"]\n", "- chord: {degree: \"1\", name: \"M\"}\n  values: [\"1\"]\n", chordY("- chord: {degree: \"5\", name: \"minorseventh\"}\n  values: [1]\n")},
 			cmds: [][]string{{"info", "chord", "describe", "-t", "Cfoo"}, {"info", "chord", "describe", "-t", "C_77"}, {"info", "attr", "describe", "-t", "Major99"}, {"info", "attr", "describe", "-t", ""}}},
 		nonsense{name: "unknown modifier command", cmds: [][]string{{"write", "conv", "-c", "xyz"}, {"write", "conv", "-c", "cmt,xyz"}, {"write", "conv", "-c", "CMT"}, {"write", "conv"}, {"write", "conv", "-c", ""}}},
-		nonsense{name: "mixed notation", text: []string{"C[1] 2[1]", "1[1] D[1]", "C/2[1]", "1/E[1]", "C[1] R[1] 5_7[1]"}},
+		nonsense{name: "mixed notation", text: []string{"C[1] 2[1]", "1[1] D[1]", "C/2[1]", "1/E[1]", "C[1] R[1] 5_7[1]"},
+			cmds: [][]string{{"info", "chord", "describe", "-t", "C/3"}, {"info", "chord", "describe", "-t", "C_7/3"}, {"info", "chord", "describe", "--target=C#m/5b", "-s"}, {"info", "chord", "describe", "-t", "Am/1"},
+				{"info", "chord", "describe", "-t", "G/99999999999999999999"}, {"info", "chord", "describe", "-t", "1/E"}, {"info", "chord", "describe", "-t", "Bbm7/b7"}}},
 		nonsense{name: "empty piece", text: []string{"", " ", "\n\n", ";only a comment\n", ";c"}, yaml: []string{"", "[]\n", "null\n", "~\n", "---\n", "# nothing\n", "{}\n"}},
 	)
 	// keys without a scale
@@ -874,11 +932,12 @@ func nonsenseCatalogue(c *core.Ctx) {
 		}
 	}
 	// two kinds of nonsense at once: every bad command line on every empty document. (`write parse` and
-	// `write conv` do not have to refuse an empty document by themselves, and a flag that overrides the
-	// first instance has nothing to be applied to there - so only command lines that are wrong on their
-	// own, or commands that must refuse the empty piece anyway, are listed.)
+	// `write conv` do not have to refuse an empty document by themselves, but nonsense in a flag value is
+	// nonsense whether or not there is a first instance to take the override: F-43.)
 	emptyDocs := []string{"", "[]\n", "# nothing\n", "null\n", "---\n"}
-	for _, bad := range [][]string{{"write", "conv", "-c", "bogus"}, {"write", "conv", "-c", "cmt,bogus"}, {"write", "conv"}, {"write", "--velocity", "xx"}, {"write", "--key", "G#"}, {"write", "event", "--meter", "4/0"}, {"write", "--track", "0"}} {
+	for _, bad := range [][]string{{"write", "conv", "-c", "bogus"}, {"write", "conv", "-c", "cmt,bogus"}, {"write", "conv"}, {"write", "--velocity", "xx"}, {"write", "--key", "G#"}, {"write", "event", "--meter", "4/0"}, {"write", "--track", "0"},
+		{"write", "parse", "--velocity", "xx"}, {"write", "parse", "--key", "H"}, {"write", "parse", "-k", "Cmm"}, {"write", "parse", "--meter", "4/0"}, {"write", "parse", "--meter=0/4"},
+		{"write", "conv", "-c", "cmt", "--velocity", "fff"}, {"write", "conv", "-c", "cmt", "--key", "Cmaj"}, {"write", "conv", "-c", "cmt", "--meter", "x"}} {
 		for _, d := range emptyDocs {
 			cases = append(cases, ncase{"bad command line on an empty piece", "yaml", d, bad})
 		}
